@@ -42,9 +42,6 @@ Fixpoint bytes_eqb (a b : bytes) : bool :=
 Definition mk_fold (lo hi delta b : N) : N :=
   if (lo <=? b) && (b <=? hi) then (b + delta) mod 256 else b.
 
-Definition fold_key     := mk_fold key_fold_lo key_fold_hi key_fold_delta.          (* Key *)
-Definition fold_keystr  := mk_fold keystr_fold_lo keystr_fold_hi keystr_fold_delta. (* KeyString *)
-Definition fold_keypfx  := mk_fold keypfx_fold_lo keypfx_fold_hi keypfx_fold_delta. (* KeyWithPrefix *)
 Definition fold_wwn     := mk_fold wwn_fold_lo wwn_fold_hi wwn_fold_delta.          (* writeWireName *)
 Definition fold_wep     := mk_fold wep_fold_lo wep_fold_hi wep_fold_delta.          (* WireNameEqualsPresentation.fold *)
 
@@ -53,6 +50,11 @@ Definition fold_byte (b : N) : N := if (65 <=? b) && (b <=? 90) then b + 32 else
 (* equalNameASCIIFold and foldWireNamesEqual are translated whole from the Go AST (Gen.C03
    go_equalNameASCIIFold / go_foldWireNamesEqual); Proofs_Gen.v proves the translations equal to
    equal_name_ascii_fold / fold_wire_names_equal below, so their fold is the specification's *)
+(* the fold loops of Key / KeyString / KeyWithPrefix / KeySimple are translated from the Go AST (loopfunc:
+   go_Key_loop1_run …); Proofs_Gen.v proves that each appends exactly `map fold_byte name` to the buffer *)
+Definition fold_key     := fold_byte.          (* Key *)
+Definition fold_keystr  := fold_byte.          (* KeyString *)
+Definition fold_keypfx  := fold_byte.          (* KeyWithPrefix *)
 Definition fold_enf_a   := fold_byte.          (* equalNameASCIIFold, ca *)
 Definition fold_enf_b   := fold_byte.          (* equalNameASCIIFold, cb *)
 Definition fold_fwn     := fold_byte.          (* foldWireNamesEqual *)
@@ -749,11 +751,12 @@ Section Store.
     | FZone, FZone => bytes_eqb (f_zone a) (f_zone b) && (f_zclass a =? f_zclass b)
     | _, _ => false
     end.
-  (* FailureCache.backoff: initial * 2^(streak-1), capped at max (all in ms) *)
+  (* FailureCache.backoff: initial * 2^(streak-1), capped at max (all in ms); tied to the translated
+     go_FailureCache_backoff by Proofs_Gen.gen_FailureCache_backoff *)
   Fixpoint backoff_loop (n : nat) (maxttl ttl : N) : N :=
     match n with
     | O => ttl
-    | S n' => if ttl <? maxttl then (if maxttl / failure_backoff_half <? ttl then maxttl else backoff_loop n' maxttl (failure_backoff_factor * ttl)) else ttl
+    | S n' => if ttl <? maxttl then (if maxttl / 2 <? ttl then maxttl else backoff_loop n' maxttl (2 * ttl)) else ttl
     end.
   Definition backoff (initial maxttl streak : N) : N :=
     let ttl := backoff_loop (N.to_nat (streak - 1)) maxttl initial in
